@@ -111,9 +111,9 @@ fn check_pair(c: &Pair) -> CaseResult {
     let pr = r2::params();
     let p_ref = c.p.reference();
     let (q_ref, q_lib) = match c.relation {
-        1 | 2 => {
-            let base = if c.relation == 1 { p_ref.clone() } else { pr.curve.neg(&p_ref) };
-            let l = from_be(&c.q.lambda) % pr.p;
+        1..=8 => {
+            let base = if c.relation % 2 == 1 { p_ref.clone() } else { pr.curve.neg(&p_ref) };
+            let l = if c.relation <= 2 { from_be(&c.q.lambda) % pr.p } else { tied_lambda(&(from_be(&c.p.lambda) % pr.p), c.relation, pr.p) };
             if l.is_zero() || base.is_none() {
                 // Q is the point at infinity, in the representation that c.q's (k, lambda) select
                 let mu = from_be(&c.q.k) % pr.p;
@@ -135,9 +135,9 @@ fn check_pair(c: &Pair) -> CaseResult {
         (false, true) => "P+O".to_string(),
         _ => {
             if p_ref == q_ref {
-                format!("P=Q/{}", if same_z { "sameZ" } else { "diffZ" })
+                format!("P=Q/{}", if c.relation >= 3 { "tiedZ" } else if same_z { "sameZ" } else { "diffZ" })
             } else if want.is_none() {
-                format!("P=-Q/{}", if same_z { "sameZ" } else { "diffZ" })
+                format!("P=-Q/{}", if c.relation >= 3 { "tiedZ" } else if same_z { "sameZ" } else { "diffZ" })
             } else {
                 format!("generic/{}+{}", c.p.class(), c.q.class())
             }
@@ -536,7 +536,7 @@ pub fn run(ctx: &Ctx) {
 
     // ---- group law
     ctx.generated("point_add_pairs", "proptest (P rep, relation, Q rep): generic, equal, opposite, infinity; same or different Z", ctx.tier.pick(3_000, 40_000), || {
-        (prep(), prop_oneof![3 => Just(0u8), 2 => Just(1u8), 2 => Just(2u8)], prep()).prop_map(|(p, relation, q)| Pair { p, relation, q })
+        (prep(), prop_oneof![3 => Just(0u8), 2 => Just(1u8), 2 => Just(2u8), 2 => 3..=8u8], prep()).prop_map(|(p, relation, q)| Pair { p, relation, q })
     }, check_pair);
 
     ctx.generated("point_unary", "proptest P rep: doubling, negation, affine conversion, encodings, validity predicates (+ off-curve perturbations)", ctx.tier.pick(1_500, 20_000), prep, check_unary);
